@@ -618,6 +618,74 @@ func gen(a Args, out *Out) {
 		}
 	}
 
+	// 11. the clock reading goes backwards between two ticks (wall-clock adjustment).  The
+	// wheel takes the earlier reading as its new reference without ticking and goes on one
+	// tick per unit from there: no timer fires early, none is lost, each fires after exactly
+	// `delay` further units of forward time.  The heap compares absolute deadlines: nothing
+	// fires until the clock has caught up.  Timers started while the clock is behind.
+	// (own random stream: the classes above and below keep their cases per seed)
+	{
+		brng := NewRng(a.Seed*2654435761 + 11)
+		for k := 0; k < 24*scale; k++ {
+			r := brng.Fork()
+			impl := int64(drv.ImplWheel)
+			if k%3 == 2 {
+				impl = drv.ImplHeap
+			}
+			tt0 := int64(r.PickI64(0, 5, 1000, 1<<33))
+			h := drv.NewHist(impl, startPos(r), tt0)
+			for i := 0; i < r.Range(1, 4); i++ {
+				if r.Chance(1, 4) {
+					h.Every(int64(r.Range(1, 12)))
+				} else {
+					h.Start(int64(r.Range(0, 30)))
+				}
+				h.HandleAdd()
+			}
+			if r.Bool() {
+				h.Adv(int64(r.Range(0, 6)))
+			}
+			for j := 0; j < r.Range(1, 4); j++ {
+				back := int64(r.Range(1, 20))
+				if r.Chance(1, 6) {
+					back = int64(r.PickI64(1000, 1<<20, 1<<40)) // far back, also below 0
+				}
+				h.Pass(-back)
+				switch r.Intn(4) {
+				case 0:
+					h.Tick() // the worker sees the earlier time
+				case 1:
+					h.Pass(int64(r.Range(0, 25))) // back and forth before the worker looks
+					h.Tick()
+				case 2:
+					h.Tick()
+					h.Tick()
+				default:
+					// not seen by the worker at all: forward again past the old reading
+					h.Pass(back + int64(r.Range(0, 3)))
+					h.Tick()
+				}
+				h.Size()
+				if r.Bool() {
+					h.Start(int64(r.Range(0, 12))) // started while the clock is behind
+					h.HandleAdd()
+				}
+				for s := 0; s < r.Range(1, 5); s++ {
+					h.Adv(int64(r.PickInt(1, 1, 2, 3, 7, 20)))
+				}
+				if impl == drv.ImplHeap && back < 100 && r.Bool() {
+					h.Adv(back) // the heap catches up with the absolute deadlines
+				}
+				h.Size()
+			}
+			h.Adv(int64(r.Range(1, 40)))
+			h.Size()
+			h.Probe()
+			out.Count("clock-back-cases")
+			emit("clock-back", h)
+		}
+	}
+
 	// 9. the REAL worker goroutine with nobody reading Chan() (see drv.Live): every one-shot
 	// timer is delivered exactly once or cancelled, and a timer received from Chan() is no
 	// longer reported by IsScheduled() / counted by Size() — also while the worker is still
